@@ -76,4 +76,11 @@ def rules(t, with_obl=True):
                                     s = Site(f, bb2, 0, c2); r.site(s)
                                     r.bad(f"{f.path}|is_empty-on-array", s, f"is_empty() on [_; {ty['len']}] is always false: the validation it guards is vacuous")
     out.append(r)
+    r = RuleResult("C07.e", "an unauthenticated datagram cannot change the replay window: window consulted before and advanced only after a successful decrypt (shared with C04.a1/a2)", floor=2)
+    import rules.C04 as C04
+    for rr in C04.rules(t):
+        if rr.id in ("C04.a1", "C04.a2"):
+            r.sites += rr.sites
+            for v in rr.violations: r.bad(v.key.split("|", 1)[1], v.site, v.msg)
+    out.append(r)
     return out
